@@ -64,6 +64,11 @@ def main():
         print(out)
         return 2
     results = []
+    previous = []
+    rp = os.path.join(ROOT, "sensitivity", "results.json")
+    if only and os.path.exists(rp):
+        # a partial run updates the entries it touches and keeps the rest
+        previous = [r for r in json.load(open(rp)) if not any(r["name"] == i[0] for i in items)]
     try:
         for name, patch, props, origin in items:
             t0 = time.time()
@@ -96,10 +101,17 @@ def main():
             results.append(rec)
             killed = [p for p, c in rec["checks"].items() if c["exit"] == 1]
             print("%-55s valid=%s tests=%s killed_by=%s other=%s (%.0fs)" % (name, valid, passed, killed, {p: c["exit"] for p, c in rec["checks"].items() if c["exit"] != 1}, rec["seconds"]), flush=True)
-            json.dump(results, open(os.path.join(ROOT, "sensitivity", "results.json"), "w"), indent=1)
+            json.dump(previous + results, open(os.path.join(ROOT, "sensitivity", "results.json"), "w"), indent=1)
     finally:
         sh(["git", "-C", "/repo", "worktree", "remove", "--force", WT])
-    write_report(results)
+    # drop entries whose patch no longer exists
+    known = set(i[0] for i in items)
+    if only:
+        idx_names = set()
+        for line in open(os.path.join(ROOT, "sensitivity", "mutants", "INDEX.tsv")):
+            idx_names.add("mutants/" + line.split("\t")[0])
+        previous = [r for r in previous if r["name"] in idx_names or r["name"].startswith("seeded/")]
+    write_report(sorted(previous + results, key=lambda r: (r["name"].startswith("seeded/"), r["name"])))
     return 0
 
 
